@@ -66,6 +66,7 @@ TRANSPARENT = {
     "core::option::Option::<T>::unwrap_or",
     "core::result::Result::<T, E>::unwrap_or",
     # prefixes / suffixes / sub-slices of the same string
+    "core::str::<impl str>::split_once",
     "core::str::<impl str>::strip_prefix",
     "core::str::traits::<impl core::ops::index::Index<I> for str>::index",
     "core::str::<impl str>::get",
@@ -97,6 +98,7 @@ TRANSPARENT = {
 
 # sub-slicing: the result derives from the receiver only (the other arguments are positions)
 INDEXERS = {
+    "core::str::<impl str>::split_once",
     "core::str::<impl str>::strip_prefix",
     "core::str::traits::<impl core::ops::index::Index<I> for str>::index",
     "core::str::<impl str>::get",
